@@ -413,7 +413,8 @@ def _fp_to_float(v):
 # stated range).  Only the str methods the parser uses are provided; any result without a symbolic character collapses
 # to a real str, so dictionary keys and the C tokenizer only ever see concrete text.
 
-WHITESPACE = (32, 9, 10, 13, 11, 12)
+WHITESPACE = (32, 9, 10, 13, 11, 12, 28, 29, 30, 31)       # str.isspace() below 127
+LINE_BOUNDARIES = (10, 11, 12, 13, 28, 29, 30, 133, 0x2028, 0x2029)       # what str.splitlines() splits on
 
 
 class SymChar(object):
@@ -533,6 +534,28 @@ class SymStr(object):
             else:
                 cur.append(c)
         parts.append(_mk(cur))
+        return parts
+
+    def splitlines(self):
+        """str.splitlines(): every line boundary character ends a line ('\\r\\n' counts once); no empty last line."""
+        parts, cur, i = [], [], 0
+        n = len(self.chars)
+        while i < n:
+            c = self.chars[i]
+            if isinstance(c, str):
+                is_b = ord(c) in LINE_BOUNDARIES
+            else:
+                is_b = D.decide(z3.Or([c.e == b for b in LINE_BOUNDARIES]))
+            if is_b:
+                parts.append(_mk(cur))
+                cur = []
+                if _truth(_ceq(c, '\r')) and i + 1 < n and _truth(_ceq(self.chars[i + 1], '\n')):
+                    i += 1
+            else:
+                cur.append(c)
+            i += 1
+        if cur:
+            parts.append(_mk(cur))
         return parts
 
     def replace(self, old, new):
